@@ -26,7 +26,9 @@ def run(env, res):
                 'None/0/\'\'/False/[]/{}, 12% with a malformed group body or sequence item, 35% written in another '
                 'yaml layout: flow style, JSON, first step on line 1, other indentation); a case is '
                 'non-trivial when the model accepts it and it terminates; distinct by canonical program text')
-    directed = [('c02', fo.c02_family, env.n(900, 100000)), ('c01-straight', fo.c01_family, env.n(150, 2000))]
+    directed = [('c02', fo.c02_family, env.n(900, 100000)), ('c01-straight', fo.c01_family, env.n(150, 2000)),
+                ('c02-parser-handler', fo.c02_parser_handler_family, env.n(18, 100000)),
+                ('c11-self', fo.c11_self_family, env.n(20, 100000)), ('c01-names', fo.c01_names_family, env.n(20, 100000))]
     flowcheck.run_streams(env, res, directed, env.n(400, 100000), weights={'stop': 2, 'stoppipeline': 2, 'stopstepgroup': 2.5, 'jump': 2, 'call': 3, 'pype': 2, 'fail': 1.5},
                           random_monitor=flowcheck.monitor_all)
 
